@@ -39,8 +39,8 @@ SDK = re.compile(r"^Sdk\.Equal$")
 PROPS = {
     "C01": dict(
         title="single-item operations behave as a key->item map",
-        quick=[G("M_C01a"), H(30)],
-        thorough=[G("M_C01a"), G("M_C01b"), H(600, 60)],
+        quick=[G("M_C01a"), T("M_NUMKEY"), T("M_HKEYS", observe="last"), H(30)],
+        thorough=[G("M_C01a"), G("M_C01b"), T("M_NUMKEY"), T("M_HKEYS", observe="last"), H(600, 60)],
         own=[parts("Outcome", "ErrClass", "Data", "Base", "Desc", "Catalog")],
         design_ref="DESIGN.md 6 C01",
         level_text="Every (state, operation) transition of a bounded key->item model (3 keys, Put/Update/Delete/Get menus) is "
